@@ -1,4 +1,5 @@
-//! C07: wrap-and-sort at the deb822 level (Entry / Paragraph / Deb822)
+//! C07: wrap-and-sort at the deb822 level (Entry / Paragraph / Deb822) and through the control-file
+//! wrappers (formatter `c`: Control / Source / Binary::wrap_and_sort of debian-control)
 use crate::deb::{dump_node, enc_items};
 use crate::docspec;
 use crate::util::*;
@@ -40,7 +41,54 @@ fn fmt_comma_lines(_k: &str, v: &str) -> String {
     v.split(',').map(|s| s.trim().to_string()).collect::<Vec<_>>().join(",\n")
 }
 
+pub const REL_FIELDS: [&str; 12] = [
+    "Build-Depends",
+    "Build-Depends-Indep",
+    "Build-Depends-Arch",
+    "Build-Conflicts",
+    "Build-Conflicts-Indep",
+    "Build-Conflics-Arch",
+    "Depends",
+    "Recommends",
+    "Suggests",
+    "Enhances",
+    "Pre-Depends",
+    "Breaks",
+];
+
+/// what the control-file formatter (private `format_field` of debian-control) is expected to return,
+/// computed from public API: Uploaders one per line; relationship fields normalised by
+/// `Relations::wrap_and_sort` (read with substitution variables allowed; a field that does not parse
+/// is left alone); every other field unchanged. `None` = the normalisation itself panics (a relation
+/// such as `a (> 1)` whose operator the accessors cannot read).
+fn fmt_control(k: &str, v: &str) -> Option<String> {
+    use debian_control::lossless::relations::Relations;
+    if k == "Uploaders" {
+        return Some(fmt_comma_lines(k, v));
+    }
+    if REL_FIELDS.contains(&k) {
+        let (r, errs) = Relations::parse_relaxed(v, true);
+        if !errs.is_empty() {
+            return Some(v.to_string());
+        }
+        return std::panic::catch_unwind(std::panic::AssertUnwindSafe(|| r.wrap_and_sort().to_string())).ok();
+    }
+    Some(v.to_string())
+}
+
 fn wrap_para(c: &Cfg, p: &Paragraph) -> Paragraph {
+    if c.fmt == "c" {
+        // through the typed wrappers: Source for a paragraph with a Source field, Binary otherwise
+        return if p.get("Source").is_some() {
+            let mut s = debian_control::lossless::control::Source::from(Paragraph::cast(p.syntax().clone()).unwrap());
+            s.wrap_and_sort(c.ind, c.imm, c.max);
+            s.into()
+        } else {
+            let mut b = debian_control::lossless::control::Binary::from(Paragraph::cast(p.syntax().clone()).unwrap());
+            b.wrap_and_sort(c.ind, c.imm, c.max);
+            b.into()
+        };
+    }
     let by_key = |a: &Entry, b: &Entry| a.key().cmp(&b.key());
     let by_val = |a: &Entry, b: &Entry| a.value().cmp(&b.value());
     let ecmp: Option<&dyn Fn(&Entry, &Entry) -> std::cmp::Ordering> = match c.ecmp.as_str() {
@@ -66,6 +114,11 @@ fn wrap_entry(c: &Cfg, e: &Entry) -> Entry {
 }
 
 fn wrap_doc(c: &Cfg, d: &Deb822) -> Deb822 {
+    if c.fmt == "c" {
+        let mut ctl = debian_control::lossless::Control::from(Deb822::cast(d.syntax().clone()).unwrap());
+        ctl.wrap_and_sort(c.ind, c.imm, c.max);
+        return ctl.into();
+    }
     let by_pkg = |a: &Paragraph, b: &Paragraph| a.get("Package").cmp(&b.get("Package"));
     let pcmp: Option<&dyn Fn(&Paragraph, &Paragraph) -> std::cmp::Ordering> =
         if c.pcmp == "p" { Some(&by_pkg) } else { None };
@@ -156,9 +209,34 @@ pub fn handle(op: &str, a: &[&str]) -> Option<Resp> {
                 _ => return None,
             };
             let before = describe(&start);
+            // control formatter: a relationship field with a version component above i32::MAX may make
+            // debversion's Version::cmp panic inside the sort (F-C12-1); which comparisons the sort
+            // makes is not modelled: both sides answer BIGNUM, the call is still made and a panic is
+            // reported under the open finding F-C07-8
+            if c.fmt == "c" {
+                use debian_control::lossless::relations::Relations;
+                let big = before.content.iter().any(|p| {
+                    p.iter().any(|(k, v)| {
+                        REL_FIELDS.contains(&k.as_str()) && {
+                            let (r, e) = Relations::parse_relaxed(v, true);
+                            e.is_empty() && crate::reledit::has_big_number(&r)
+                        }
+                    })
+                });
+                if big {
+                    let panicked = std::panic::catch_unwind(std::panic::AssertUnwindSafe(|| describe(&apply(level, &c, &start)).text)).is_err();
+                    return Some(Resp::with(
+                        "BIGNUM".to_string(),
+                        if panicked { Some("wrap_and_sort panics comparing a numeric version component above i32::MAX".to_string()) } else { None },
+                    ));
+                }
+            }
             // a panic is a violation only inside the property's domain (error-free documents,
             // indentation of at least one column)
-            let in_domain0 = errs.is_empty() && !s.contains('\r') && !matches!(c.ind, Indentation::Spaces(0));
+            // control formatter: a relationship field whose normalisation itself panics (an operator
+            // the accessors cannot read, `a (> 1)`) is outside the domain
+            let fmt_c_ok = c.fmt != "c" || before.content.iter().all(|p| p.iter().all(|(k, v)| fmt_control(k, v).is_some()));
+            let in_domain0 = errs.is_empty() && !s.contains('\r') && !matches!(c.ind, Indentation::Spaces(0)) && fmt_c_ok;
             let run = std::panic::catch_unwind(std::panic::AssertUnwindSafe(|| {
                 let once = apply(level, &c, &start);
                 let o1 = describe(&once);
@@ -178,7 +256,7 @@ pub fn handle(op: &str, a: &[&str]) -> Option<Resp> {
             // the property's oracle, on error-free LF documents with an indentation of >= 1 column
             let indent_ok = !matches!(c.ind, Indentation::Spaces(0));
             let mut fail = None;
-            if errs.is_empty() && !s.contains('\r') && indent_ok {
+            if errs.is_empty() && !s.contains('\r') && indent_ok && fmt_c_ok {
                 // every paragraph and field kept; values keep their non-blank lines up to
                 // surrounding whitespace (no formatter / identity formatter) or are exactly the
                 // formatter's output
@@ -191,7 +269,13 @@ pub fn handle(op: &str, a: &[&str]) -> Option<Resp> {
                     .map(|p| {
                         p.iter()
                             .map(|(k, v)| {
-                                let v2 = if c.fmt == "u" { fmt_comma_lines(k, v) } else { v.clone() };
+                                let v2 = if c.fmt == "u" {
+                                    fmt_comma_lines(k, v)
+                                } else if c.fmt == "c" {
+                                    fmt_control(k, v).unwrap_or_else(|| v.clone())
+                                } else {
+                                    v.clone()
+                                };
                                 (k.clone(), nb_trim(&v2))
                             })
                             .collect()
@@ -199,8 +283,9 @@ pub fn handle(op: &str, a: &[&str]) -> Option<Resp> {
                     .collect();
                 let norm_after: Vec<Vec<NF>> =
                     o1.content.iter().map(|p| p.iter().map(|(k, v)| (k.clone(), nb_trim(v))).collect()).collect();
-                let sort_entries = c.ecmp != "n" && *level != "e" && c.fmt != "x";
-                let sort_paras = c.pcmp == "p" && *level == "d";
+                let sort_entries = c.ecmp != "n" && *level != "e" && c.fmt != "x" && c.fmt != "c";
+                let ctl_doc = c.fmt == "c" && *level == "d";
+                let sort_paras = (c.pcmp == "p" && c.fmt != "c" || ctl_doc) && *level == "d";
                 let canon = |ps: &Vec<Vec<NF>>| -> Vec<Vec<NF>> {
                     let mut ps: Vec<Vec<NF>> = ps
                         .iter()
@@ -232,7 +317,21 @@ pub fn handle(op: &str, a: &[&str]) -> Option<Resp> {
                         }
                     }
                 }
-                if fail.is_none() && sort_paras {
+                if fail.is_none() && ctl_doc {
+                    // Source paragraphs first (by name), then the others by Package
+                    let keys: Vec<(u8, Option<String>)> = o1
+                        .content
+                        .iter()
+                        .map(|p| match p.iter().find(|f| f.0 == "Source") {
+                            Some(f) => (0u8, Some(f.1.clone())),
+                            None => (1u8, p.iter().find(|f| f.0 == "Package").map(|f| f.1.clone())),
+                        })
+                        .collect();
+                    if !keys.windows(2).all(|w| w[0] <= w[1]) {
+                        fail = Some(format!("paragraphs not in the control-file order: {:?}", keys));
+                    }
+                }
+                if fail.is_none() && sort_paras && !ctl_doc {
                     let keys: Vec<Option<String>> = o1
                         .content
                         .iter()
@@ -246,7 +345,7 @@ pub fn handle(op: &str, a: &[&str]) -> Option<Resp> {
                 if fail.is_none() {
                     let mut cb = comment_lines(&before.text);
                     let mut ca = comment_lines(&o1.text);
-                    if c.ecmp == "n" && c.pcmp == "n" {
+                    if (c.ecmp == "n" && c.pcmp == "n" && c.fmt != "c") || (c.fmt == "c" && *level != "d") {
                         if cb != ca {
                             fail = Some(format!("comment lines changed: {:?} -> {:?}", cb, ca));
                         }
@@ -377,6 +476,73 @@ pub fn generate_c07(tier: &str, seed: u64, out: &mut Out) {
         out.req("deb.wrap", &["d".to_string(), es(&many_paras), c.to_string()]);
         out.req("deb.wrap", &["d".to_string(), es(&many_entries), c.to_string()]);
         out.req("deb.wrap", &["p".to_string(), es(&many_entries), c.to_string()]);
+    }
+    // the control-file wrappers (formatter `c`): Control at document level, Source / Binary on the
+    // first paragraph; realistic control files with every formatted field, substitution variables,
+    // unsorted / folded / oddly spaced relationship fields, comments, several source paragraphs
+    let ctl_docs = [
+        "Source: a\nBuild-Depends: z, b (>= 1),\n a\n\nPackage: b\nDepends: ${misc:Depends}, c\n",
+        "Source: a\nUploaders: A <a@b>, B <b@c>\nBuild-Depends: z, a\n\nPackage: z\nDepends: y\n\nPackage: b\nDepends: c | a\n",
+        "Source: s\nMaintainer: M <m@e>\nUploaders:\n U1 <u1@e>,\n U2 <u2@e>\nBuild-Depends: debhelper-compat (= 13), x [!amd64] <!nocheck> | y:any (>> 1:2~)\nBuild-Depends-Indep:\n p,\n o\nBuild-Conflicts: q\nBuild-Conflicts-Arch: k, j\nBuild-Conflics-Arch: k, j\nVcs-Git: https://x/y.git\n\n# about b\nPackage: b\nArchitecture: any\nDepends: ${shlibs:Depends}, ${misc:Depends}, b2 (<< 2), a1\nRecommends: r2, r1\nSuggests: s\nEnhances: e\nPre-Depends: ${misc:Pre-Depends}\nBreaks: old (<< 1)\nConflicts: zz, aa\nDescription: short\n long\n .\n more\n\nPackage: a\nArchitecture: all\nDepends: a1,a0\n",
+        "Package: b\nDepends: b, a\n\nSource: s2\n\nPackage: a\n\nSource: s1\nBuild-Depends: x\n",
+        "Package: x\nDepends: a (\n",
+        "Package: x\nDepends: a (> 1)\n",
+        "Package: x\nDepends: a (>= 3000000000), a (>= 3000000001), b\n",
+        "Package: x\nDepends: , a, , b,\n",
+        "Package: x\nDepends:\nRecommends: \n",
+        "Source: s\nBuild-Depends: b,\n# a comment inside the field\n a\n",
+        "Source: s\nUploaders: Doe, John <j@e>, B <b@e>\n",
+        "Source: s\nBuild-Depends: a (>= 1) | b [i386]  <x>   ,c\nX-Other: kept  as is\n",
+        "# lead\n\nPackage: p\nDepends: z | a, m\n\n# mid\n\nSource: s\n",
+    ];
+    for t in ctl_docs.iter() {
+        for ind in ["1", "2", "4", "f"] {
+            for imm in ["0", "1"] {
+                for mx in ["n", "20", "79"] {
+                    for level in ["d", "p"] {
+                        out.req("deb.wrap", &[level.to_string(), es(t), format!("{}/{}/{}/n/n/c", ind, imm, mx)]);
+                    }
+                }
+            }
+        }
+    }
+    {
+        // seeded control files: relationship fields from the relation generator (with substvars)
+        let nctl = if thorough { 20_000 } else { 1_500 };
+        let rel_names = ["Build-Depends", "Depends", "Recommends", "Pre-Depends", "Breaks", "Conflicts", "Build-Conflics-Arch"];
+        for _ in 0..nctl {
+            let mut t = String::new();
+            let nparas = 1 + rng.below(3);
+            for i in 0..nparas {
+                if i > 0 {
+                    t.push('\n');
+                }
+                if rng.chance(10) {
+                    t.push_str("# c\n");
+                }
+                if i == 0 && rng.chance(70) {
+                    t.push_str(&format!("Source: {}\n", rng.pick(&["s", "a", "zz"])));
+                } else {
+                    t.push_str(&format!("Package: {}\n", rng.pick(&["b", "a", "c", "a"])));
+                }
+                for _ in 0..rng.below(3) {
+                    let f = crate::rel::random_field(&mut rng);
+                    if f.contains("\n\n") || f.trim().is_empty() {
+                        continue;
+                    }
+                    let folded = f.replace('\n', "\n ");
+                    t.push_str(&format!("{}: {}\n", rng.pick(&rel_names), folded.trim()));
+                }
+                if rng.chance(30) {
+                    t.push_str("Uploaders: B <b@e>,A <a@e>\n");
+                }
+                if rng.chance(30) {
+                    t.push_str("Description: d\n long\n");
+                }
+            }
+            let cfg = format!("{}/{}/{}/n/n/c", rng.pick(&["1", "2", "4", "f"]), rng.pick(&["0", "1"]), rng.pick(&["n", "20", "79"]));
+            out.req("deb.wrap", &[rng.pick(&["d", "d", "p"]).to_string(), es(&t), cfg]);
+        }
     }
     // every error-free short text over the character classes, under a few settings
     let short = strings_upto(&crate::deb::ALPHABET, if thorough { 5 } else { 4 });
